@@ -319,6 +319,26 @@ fresh2!(r_pwhash_salt, "PwHash::hash", "salt", "hash", {
     (salt, hash)
 });
 
+// non-default salt lengths: the whole salt must be random, not only its first 16 bytes
+macro_rules! pwhash_salt_len {
+    ($fname:ident, $what:expr, $len:expr) => {
+        fresh2!($fname, $what, "salt", "hash", {
+            use dryoc::pwhash::{Config, VecPwHash};
+            let cfg = Config::interactive().with_opslimit(1).with_memlimit(8192).with_salt_length($len);
+            let h = VecPwHash::hash(&b"password".to_vec(), cfg).expect("hash");
+            let (hash, salt, _) = h.into_parts();
+            if salt.len() != $len {
+                panic!("{} PwHash::hash returned a {}-byte salt for salt_length {}", HARNESS, salt.len(), $len);
+            }
+            (salt, hash)
+        });
+    };
+}
+pwhash_salt_len!(r_pwhash_salt_17, "PwHash::hash (salt_length 17)", 17);
+pwhash_salt_len!(r_pwhash_salt_32, "PwHash::hash (salt_length 32)", 32);
+pwhash_salt_len!(r_pwhash_salt_64, "PwHash::hash (salt_length 64)", 64);
+pwhash_salt_len!(r_pwhash_salt_8, "PwHash::hash (salt_length 8)", 8);
+
 /// `$argon2id$v=19$m=..,t=..,p=..$<salt>$<hash>` -> salt bytes
 fn salt_of(s: &str) -> Option<Vec<u8>> {
     use base64::Engine as _;
@@ -381,6 +401,10 @@ pub const C11: Registry = &[
     ("copy_randombytes_long", r_copy_randombytes_long),
     ("copy_randombytes", r_copy_randombytes),
     ("pwhash_salt", r_pwhash_salt),
+    ("pwhash_salt_length_17", r_pwhash_salt_17),
+    ("pwhash_salt_length_32", r_pwhash_salt_32),
+    ("pwhash_salt_length_64", r_pwhash_salt_64),
+    ("pwhash_salt_length_8", r_pwhash_salt_8),
     ("pwhash_str_salt", r_pwhash_str_salt),
 ];
 
